@@ -106,19 +106,30 @@ def copy_ecu_with_frames(ecu_or_glob, source_db, target_db, rx=True, tx=True, di
     target_db.update_ecu_list()
 
     if direct_ecu_only:
-        # delete ecu-names if not direct in communication to ecu
-        ecus_to_delete = []
-        wanted_ecu_names = [wanted_ecu.name for wanted_ecu in ecu_list]
-        for ecu in target_db.ecus:
-            if ecu.name not in wanted_ecu_names:  # ecu is not a wanted ecu
-                found = False
-                for frame in target_db.frames:
-                    if ecu.name in frame.transmitters:
-                        found = True  # ecu is a sender of a received frame
-                if not found:
-                    ecus_to_delete.append(ecu)
-        for ecu in ecus_to_delete:
-            target_db.del_ecu(ecu)
+        delete_indirect_ecus(target_db, [wanted_ecu.name for wanted_ecu in ecu_list])
+
+
+def delete_indirect_ecus(target_db, wanted_ecu_names):
+    # type: (canmatrix.CanMatrix, typing.Sequence[str]) -> None
+    """
+    Delete the ECUs which are not in direct communication to the wanted ECUs:
+    an ECU is kept if it is wanted or if it is the sender of a frame in the target matrix.
+
+    :param target_db: CAN matrix to clean up
+    :param wanted_ecu_names: names of the ECUs which were copied on purpose
+    """
+    ecus_to_delete = []
+    for ecu in target_db.ecus:
+        if ecu.name not in wanted_ecu_names:  # ecu is not a wanted ecu
+            found = False
+            for frame in target_db.frames:
+                if ecu.name in frame.transmitters:
+                    found = True  # ecu is a sender of a received frame
+            if not found:
+                ecus_to_delete.append(ecu)
+    for ecu in ecus_to_delete:
+        target_db.del_ecu(ecu)
+
 
 def copy_signal(signal_glob, source_db, target_db):
     # type: (str, canmatrix.CanMatrix, canmatrix.CanMatrix) -> None
